@@ -33,6 +33,7 @@ type SpecCtx struct {
 	noState  bool // axioms / pure functions: no heap access allowed
 	heapVars map[string]*Term // pure functions with explicit heap parameters
 	fuelVar  string           // inside the body of a recursive pure function
+	curSpec  *specSig
 }
 
 func (x *Exec) newSpecCtx(st *State, f *Frame, fn *ssa.Function) *SpecCtx {
@@ -883,12 +884,14 @@ func (c *SpecCtx) bin(e *Expr, pos bool) *Term {
 }
 
 type specSig struct {
+	reads  map[string]bool // heap arrays read at their entry version (static spec functions)
 	rec    bool
 	name   string
 	params []specParam
 	ret    string
 	retT   types.Type
 	heaps  []string // heap arrays passed implicitly (current or old versions)
+	uses   []string // spec functions called in the body
 	pkg    string
 }
 type specParam struct {
@@ -898,6 +901,9 @@ type specParam struct {
 }
 
 func (c *SpecCtx) callSpec(sf *specSig, args []*Term) *Term {
+	if c.curSpec != nil {
+		c.curSpec.uses = append(c.curSpec.uses, sf.name)
+	}
 	if len(args) != len(sf.params) {
 		c.fail("%s expects %d arguments, got %d", sf.name, len(sf.params), len(args))
 	}
@@ -914,6 +920,7 @@ func (c *SpecCtx) callSpec(sf *specSig, args []*Term) *Term {
 	for _, h := range sf.heaps {
 		all = append(all, c.heapArr(h))
 	}
+	c.checkStaticReads(sf, map[string]bool{})
 	if sf.rec {
 		fuel := "(FS (FS FZ))"
 		if c.fuelVar != "" {
@@ -924,6 +931,30 @@ func (c *SpecCtx) callSpec(sf *specSig, args []*Term) *Term {
 	r := App(sf.ret, sf.name, all...)
 	r.T = sf.retT
 	return r
+}
+
+// checkStaticReads: a static spec function denotes its value in the entry heap; it may only be used while every
+// heap array it reads (transitively) still has its entry version.
+func (c *SpecCtx) checkStaticReads(sf *specSig, seen map[string]bool) {
+	if seen[sf.name] {
+		return
+	}
+	seen[sf.name] = true
+	for h := range sf.reads {
+		if c.st == nil {
+			continue
+		}
+		if cur, ok := c.st.heap[h]; ok {
+			if e0, ok0 := c.st.heap0[h]; ok0 && cur.S != e0.S {
+				c.fail("static spec function %s reads heap array %s, which has been modified on this path", sf.name, h)
+			}
+		}
+	}
+	for _, d := range sf.uses {
+		if s2 := c.x.specSigs[d]; s2 != nil {
+			c.checkStaticReads(s2, seen)
+		}
+	}
 }
 
 func (c *SpecCtx) call(e *Expr, pos bool) *Term {
@@ -1008,11 +1039,20 @@ func (c *SpecCtx) call(e *Expr, pos bool) *Term {
 		return App("Ev", "ev", IntLit(evOut), arg(0), IntLit(0), arg(1))
 	case "iterdone":
 		// done-set of the map iteration of the current loop
-		if c.loop != nil && c.frame != nil {
-			for _, in := range c.loop.head.Instrs {
-				if nx, ok := in.(*ssa.Next); ok {
-					if it, ok := c.frame.regs[nx.Iter].(*Iter); ok {
-						return sel(c.st.iters[it.id].done, arg(0), "Bool")
+		if c.frame != nil {
+			var heads []*ssa.BasicBlock
+			if c.loop != nil {
+				heads = append(heads, c.loop.head)
+			}
+			for h := range c.frame.active {
+				heads = append(heads, h)
+			}
+			for _, h := range heads {
+				for _, in := range h.Instrs {
+					if nx, ok := in.(*ssa.Next); ok {
+						if it, ok := c.frame.regs[nx.Iter].(*Iter); ok && it.isMap {
+							return sel(c.st.iters[it.id].done, arg(0), "Bool")
+						}
 					}
 				}
 			}
@@ -1063,6 +1103,49 @@ func (c *SpecCtx) call(e *Expr, pos bool) *Term {
 		return mk(x.reg.HeapSort(arr), c.heapArr(arr).S)
 	case "frame", "unchanged":
 		return c.frameClause(e, name == "unchanged")
+	case "boxframe":
+		// boxframe(r): in every boxed-value heap array only index r may differ from the pre-state
+		r := arg(0)
+		var cs []*Term
+		for _, n := range x.reg.heapOrd {
+			if !strings.HasPrefix(n, "B_") {
+				continue
+			}
+			save := c.inOld
+			c.inOld = false
+			cur := c.heapArr(n)
+			c.inOld = true
+			old := c.heapArr(n)
+			c.inOld = save
+			es := x.reg.heap[n][1]
+			cs = append(cs, Eq(cur, sto(old, r, sel(cur, r, es))))
+		}
+		return And(cs...)
+	case "evSet":
+		x.reg.SeqSort("Ev")
+		v := arg(0)
+		return App("Ev", "ev", IntLit(evSet), App("Int", "ival", v), App("Int", "itag", v), arg(1))
+	case "evClear":
+		x.reg.SeqSort("Ev")
+		v := arg(0)
+		return App("Ev", "ev", IntLit(evClear), App("Int", "ival", v), App("Int", "itag", v), mk("Str", "sempty"))
+	case "frameMap":
+		// frameMap(m): every other map object of m's type is as in the pre-state
+		m := arg(0)
+		mt, ok := m.T.Underlying().(*types.Map)
+		if !ok {
+			c.fail("frameMap: not a map")
+		}
+		ks, es := x.reg.SortOf(mt.Key()), x.reg.SortOf(mt.Elem())
+		dn, vn := x.reg.MapArrays(ks, es)
+		ds, vs := x.reg.heap[dn][1], x.reg.heap[vn][1]
+		save := c.inOld
+		c.inOld = false
+		cd, cv := c.heapArr(dn), c.heapArr(vn)
+		c.inOld = true
+		od, ov := c.heapArr(dn), c.heapArr(vn)
+		c.inOld = save
+		return And(Eq(cd, sto(od, m, sel(cd, m, ds))), Eq(cv, sto(ov, m, sel(cv, m, vs))))
 	case "heapOf":
 		// heapOf("H_x"): the current (or old) version of a heap array, for passing to pure functions
 		return c.heapArr(strArg(0))
@@ -1153,7 +1236,9 @@ func (x *Exec) registerSpecs() error {
 				st := &State{heap: map[string]*Term{}, heap0: map[string]*Term{}}
 				ctx := x.newSpecCtx(st, nil, nil)
 				ctx.pkgPath = sf.PkgPath
-				ctx.noState = true
+				ctx.noState = !sf.Static
+				ctx.inOld = sf.Static
+				ctx.curSpec = sig
 				ctx.clause = "pure func " + sf.Name
 				if sf.Rec {
 					ctx.fuelVar = "fuel_n"
@@ -1169,6 +1254,12 @@ func (x *Exec) registerSpecs() error {
 					ctx.fail("body has sort %s, declared %s", b.Sort, sig.ret)
 				}
 				fd.Def = b.S
+				if sf.Static {
+					sig.reads = map[string]bool{}
+					for n := range st.heap0 {
+						sig.reads[n] = true
+					}
+				}
 			})
 			if err != nil {
 				return fmt.Errorf("%s:%d: %v", sf.File, sf.Line, err)
